@@ -151,6 +151,10 @@ def norm_quant(f):
         q = f.arg(0)
         vs = [z3.Const("%s!n%d" % (q.var_name(j), next(_nq)), q.var_sort(j)) for j in range(q.num_vars())]
         return z3.ForAll(vs, z3.Not(z3.substitute_vars(q.body(), *reversed(vs))))
+    if z3.is_quantifier(f) and f.is_exists():
+        # an assumed existential: name its witness (sound; helps hand instantiation)
+        vs = [z3.Const("%s!w%d" % (f.var_name(j), next(_nq)), f.var_sort(j)) for j in range(f.num_vars())]
+        return norm_quant(z3.substitute_vars(f.body(), *reversed(vs)))
     if z3.is_and(f):
         return z3.And([norm_quant(c) for c in f.children()])
     return f
